@@ -1,15 +1,103 @@
-"""C17  Shipped circuit databases are correct and lookups return the requested function
+"""C17  Shipped circuit databases are correct and lookups return the requested function.
 
-P: (deductive obligations for this property are added in vlib/props/C17.py as they are built)
-B: vlib/bounded/C17.py (bounded stand-in; never counted as proved)."""
+P: NormalizationInfo is an inverse pair — for every truth table of the shapes below (all entry values), if a
+   circuit's outputs compute the rows of the NORMALISED table, then after denormalize() its outputs compute the
+   rows of the ORIGINAL table, in the original order (through output negation, sorting and de-duplication).
+   The real normalisation / denormalisation code (incl. list.sort with a key, order_outputs, _negate_gate through
+   emplace_gate) is symbolically executed on an interpreted Circuit; each comparison outcome is a path.
+B: every entry of both shipped databases (thorough: all 699,448; quick: seeded sample) and lookups incl.
+   don't-cares (vlib/bounded/C17.py)."""
+import itertools
+import z3
+
 from .. import env
-from .common import STD_TRUSTED, STD_ASSUME, run_bounded
+from ..pyvc.values import Sym, VList, Obj, Unsupported
+from ..pyvc.prove import Prover, Contract
+from .common import new_interp, finish_refuted, canary, STD_TRUSTED, STD_ASSUME, run_bounded
 
-LEVEL = 'exploration'
+LEVEL = 'other'
+NORM = 'cirbo/circuits_db/normalization.py'
+
+
+class Inverse(Contract):
+    relpath, qualname = NORM, 'NormalizationInfo.denormalize'
+
+    def __init__(self, m, rowlen):
+        self.m, self.rowlen = m, rowlen
+        self.name = f'NormalizationInfo/normalize-denormalize/{m}x{rowlen}'
+
+    def setup(self, it, ctx):
+        rows = [[z3.Bool(f't{i}_{j}') for j in range(self.rowlen)] for i in range(self.m)]
+        return [], {}, {'rows': rows}
+
+    def execute(self, it, fv, args, kwargs):
+        st = self._st
+        nm = it.load_module('cirbo.circuits_db.normalization')
+        cm = it.load_module('cirbo.core.circuit.circuit')
+        gm = it.load_module('cirbo.core.circuit.gate')
+        table = VList([VList([Sym(b) for b in r]) for r in st['rows']])
+        info = it.call(nm.env['NormalizationInfo'], [table], {})
+        norm = info.fields['truth_table']
+        k = len(norm.items)
+        c = it.call(cm.env['Circuit'], [], {})
+        it.call(it.getattr(c, '_emplace_gate'), ['x', gm.env['INPUT']], {})
+        for j in range(k):
+            it.call(it.getattr(c, '_emplace_gate'), [f'r{j}', gm.env['IFF'], ('x',)], {})
+        it.call(it.getattr(c, 'set_outputs'), [VList([f'r{j}' for j in range(k)])], {})
+        st['norm'] = norm
+        st['info'] = info
+        it.call(it.getattr(info, 'denormalize'), [c], {})
+        return c
+
+    def post(self, it, ctx, result, st):
+        norm = st['norm']
+        outs = result.fields['_outputs']
+        outs = outs.items if isinstance(outs, VList) else list(outs)
+        yield ('number-of-outputs', z3.BoolVal(len(outs) == self.m))
+        if len(outs) != self.m:
+            return
+        gates = result.fields['_gates'].d
+        for i, o in enumerate(outs):
+            # value of output o at table position x, given that r_j computes the j-th normalised row
+            def value(lbl, x):
+                g = gates[lbl]
+                t = g.fields['_gate_type'].fields['_name']
+                if lbl.startswith('r') and t == 'IFF':
+                    return it.as_bool_term(it.truth(norm.items[int(lbl[1:])].items[x]))
+                if t == 'NOT':
+                    return z3.Not(value(g.fields['_operands'][0], x))
+                raise Unsupported('unexpected gate ' + lbl)
+            for x in range(self.rowlen):
+                v = value(o, x)
+                v = z3.BoolVal(v) if isinstance(v, bool) else v
+                yield (f'output{i}-computes-original-row', v == st['rows'][i][x], {'witness': 'normalization-inverse'})
+        # normal form facts used by the database key: first entries are 0, rows ascending and pairwise distinct
+        for j, r in enumerate(norm.items):
+            f0 = it.truth(r.items[0])
+            yield (f'normalised-row{j}-starts-with-0', z3.Not(f0) if not isinstance(f0, bool) else z3.BoolVal(not f0))
+
+
+class _Runner(Inverse):
+    def setup(self, it, ctx):
+        a, k, st = Inverse.setup(self, it, ctx)
+        self._st = st
+        return a, k, st
 
 
 def run(rep):
     quick = env.TIER != 'thorough'
-    rep.trusted_base = list(STD_TRUSTED)
+    rep.trusted_base = list(STD_TRUSTED) + ['model of list.sort(key=…) as a stable sort with every comparison outcome explored']
+    for a in STD_ASSUME:
+        rep.assume(a)
+    rep.assume('the stored data (2 x 349,724 entries), the lookup functions of db.py and the don\'t-care search are covered by the bounded layer only (thorough: exhaustive over all entries)')
+    it = new_interp()
+    pv = Prover(rep, it, 'C17')
+    shapes = [(1, 2), (1, 4), (2, 2), (2, 4), (3, 2)] + ([] if quick else [(3, 4)])
+    for m, r in shapes:
+        pv.run_contract(_Runner(m, r))
+    a = z3.Bool('a')
+    canary(rep, pv, 'C17/canary/negation-is-identity', [], z3.Not(a) == a)
+    refuted = pv.discharge(env.NPROC)
+    finish_refuted(rep, pv, refuted)
     run_bounded(rep, 'C17', quick)
-    rep.extra['explanation'] = 'bounded stand-in only in this build'
+    rep.extra['explanation'] = 'normalise/denormalise inverse proved from the real source for all tables of small shapes; database contents and lookups: bounded stand-in (exhaustive over all stored entries in the thorough tier).'
